@@ -279,7 +279,7 @@ def gen_valid(r, size=None):
         for f in ("pb", "sb"):
             for _ in range(r.choice([0, 0, 1, 1, 2, 3])):
                 asps = gen_aspects(r)
-                n = fresh_in(pb["pnum" if f == "pb" else "snum"], lambda: any_byte(r))
+                n = fresh_in(pb["pnum"], lambda: any_byte(r))      # one number space per board for points and signals
                 u[f].append({"id": (c.points if f == "pb" else c.signals).fresh(), "num": byte_text(r, n), "aspects": asps, "init": pick_init(r, asps), "extra": gen_extra(r)})
         for f in ("pd", "sd"):
             for _ in range(r.choice([0, 0, 1, 1, 2])):
@@ -303,7 +303,7 @@ def gen_valid(r, size=None):
         t = {"id": c.trains.fresh("t"), "addr": hex4(r, a[0], a[1]), "steps": byte_text(r, r.choice([14, 28, 126])), "cal": None, "per": None, "extra": []}
         if r.chance(1, 2):
             t["cal"] = [byte_text(r, r.choice([0, 1, 126]) if r.chance(1, 4) else r.range(0, 126)) for _ in range(9)]
-        if t["cal"] is not None or r.chance(2, 3):
+        if r.chance(2, 3):
             nm = Names(r); bits = distinct_bytes(r, r.choice([0, 1, 2, 3, 5]), 31)
             t["per"] = [{"id": nm.fresh(), "bit": byte_text(r, b), "init": (None if r.chance(1, 3) else r.choice(["0", "1", "0x01", "0x00"]))} for b in bits]
             t["extra"] = gen_extra(r)
@@ -543,3 +543,127 @@ def mutations(doc, r, per_class=4):
         v = r.choice(BAD[kind])
         out.append(("malformed_value", "%s <- %r" % (kind, v), (lambda d: (setter(d, v), d)[1])(copy.deepcopy(doc))))
     return out
+
+# ------------------------------------------------------------------ structure-aware mutations of generic trees (C13)
+KEYS = ["id", "unique-id", "features", "number", "value", "aspects", "initial", "dcc-address", "extended", "ports", "port",
+        "points-board", "points-dcc", "signals-board", "signals-dcc", "peripherals", "segments", "reversers", "address", "length", "cv",
+        "dcc-speed-steps", "calibration", "bit", "boards", "trains"]
+
+def _paths(node, path=()):
+    """every node with its path; path elements: ('v', i) value of pair i / ('k', i) key of pair i / ('i', i) item i"""
+    yield path, node
+    if node[0] == "map":
+        for i, (k, v) in enumerate(node[1]):
+            yield from _paths(k, path + (("k", i),))
+            yield from _paths(v, path + (("v", i),))
+    elif node[0] == "seq":
+        for i, it in enumerate(node[1]):
+            yield from _paths(it, path + (("i", i),))
+
+def _get(node, path):
+    for kind, i in path:
+        node = node[1][i][0] if kind == "k" else node[1][i][1] if kind == "v" else node[1][i]
+    return node
+
+def _replace(node, path, new):
+    if not path: return new
+    (kind, i), rest = path[0], path[1:]
+    items = list(node[1])
+    if kind == "i": items[i] = _replace(items[i], rest, new)
+    elif kind == "k": items[i] = (_replace(items[i][0], rest, new), items[i][1])
+    else: items[i] = (items[i][0], _replace(items[i][1], rest, new))
+    return (node[0], items)
+
+def mutate_tree(tree, r):
+    """one structural mutation; returns (kind, new tree)"""
+    nodes = list(_paths(tree))
+    maps = [(p, n) for p, n in nodes if n[0] == "map" and n[1]]
+    seqs = [(p, n) for p, n in nodes if n[0] == "seq"]
+    strs = [(p, n) for p, n in nodes if n[0] == "str" and p and p[-1][0] != "k"]
+    op = r.choice(["del", "del", "del_first", "dup", "swap", "rename", "rename_known", "kind", "kind", "empty_map_item", "badval", "move_first_last", "extra_pair", "nest"])
+    if op in ("del", "del_first", "dup", "swap", "rename", "rename_known", "move_first_last", "extra_pair") and maps:
+        p, m = r.choice(maps); items = list(m[1]); i = r.below(len(items))
+        if op == "del": del items[i]
+        elif op == "del_first": del items[0]
+        elif op == "dup": items.insert(i, items[i])
+        elif op == "swap":
+            if len(items) < 2: return "noop", tree
+            i = r.below(len(items) - 1); items[i], items[i + 1] = items[i + 1], items[i]
+        elif op == "rename": items[i] = (S(items[i][0][1] + "x" if items[i][0][0] == "str" else "x"), items[i][1])
+        elif op == "rename_known": items[i] = (S(r.choice(KEYS)), items[i][1])
+        elif op == "move_first_last": items.append(items.pop(0))
+        elif op == "extra_pair": items.insert(r.below(len(items) + 1), (S(r.choice(KEYS + ["zz"])), r.choice([S("1"), Q([]), M([]), Q([S("a")])])))
+        return op, _replace(tree, p, ("map", items))
+    if op == "empty_map_item" and seqs:
+        p, q = r.choice(seqs); items = list(q[1]); items.insert(r.below(len(items) + 1), r.choice([M([]), S("x"), Q([]), M([(S("id"), M([]))])]))
+        return op, _replace(tree, p, ("seq", items))
+    if op == "badval" and strs:
+        p, n = r.choice(strs)
+        return op, _replace(tree, p, S(r.choice(BAD_BYTES + ["0x12345", "0x0123456789ABCDE", "~", "null", "-5"])))
+    if op == "nest" and strs:
+        p, n = r.choice(strs)
+        return op, _replace(tree, p, r.choice([Q([n]), M([(n, n)]), Q([Q([n])]), M([(S("id"), n)])]))
+    if op == "kind":
+        p, n = r.choice(nodes)
+        if not p: return "kind", r.choice([S("boards"), Q([tree]), Q([]), M([])])
+        new = {"str": [Q([]), M([]), Q([n]), M([(n, S("1"))])], "seq": [S("x"), M([]), S(""), M([(S("id"), S("a"))])], "map": [S("x"), Q([]), S(""), Q([S("a")])]}[n[0]]
+        if p[-1][0] == "k" and r.chance(3, 4): return "noop", tree
+        return op, _replace(tree, p, r.choice(new))
+    return "noop", tree
+
+def text_mutation(text, r):
+    """mutations below the tree level: truncation, byte noise, extra documents, anchors/aliases/tags"""
+    b = bytearray(text.encode("utf-8"))
+    op = r.choice(["truncate", "truncate_line", "noise_replace", "noise_insert", "random", "second_doc", "doc_markers", "alias", "tag", "tabs", "bom", "nul", "unterminated"])
+    if op == "truncate" and b: return op, bytes(b[:r.below(len(b))])
+    if op == "truncate_line" and b:
+        lines = text.split("\n"); k = r.below(len(lines)); return op, ("\n".join(lines[:k]) + "\n").encode("utf-8")
+    if op == "noise_replace" and b:
+        for _ in range(r.range(1, 4)): b[r.below(len(b))] = r.below(256)
+        return op, bytes(b)
+    if op == "noise_insert":
+        for _ in range(r.range(1, 4)): b.insert(r.below(len(b) + 1), r.choice([0x3a, 0x2d, 0x7b, 0x5b, 0x26, 0x2a, 0x21, 0x25, 0x22, 0x27, 0x0a, 0x20, 0x23, 0x7c, 0x3e, r.below(256)]))
+        return op, bytes(b)
+    if op == "random": return op, bytes(r.below(256) for _ in range(r.choice([1, 2, 10, 100, 1000])))
+    if op == "second_doc": return op, bytes(b) + b"---\nboards: []\n"
+    if op == "doc_markers": return op, b"%YAML 1.1\n---\n" + bytes(b) + b"...\n"
+    if op == "alias":
+        t = text.replace("id: ", "id: &a ", 1)
+        k = t.find("\n", t.find("&a") + 1)
+        return op, (t[:k + 1] + t[k + 1:].replace("id: ", "id: *a #", 1)).encode("utf-8")
+    if op == "tag": return op, text.replace(": ", ": !!str ", r.range(1, 3)).encode("utf-8")
+    if op == "tabs": return op, text.replace("  ", "\t", r.range(1, 3)).encode("utf-8")
+    if op == "bom": return op, r.choice([b"\xef\xbb\xbf", b"\xff\xfe", b"\xfe\xff"]) + bytes(b)
+    if op == "nul": 
+        if b: b.insert(r.below(len(b)), 0)
+        return op, bytes(b)
+    if op == "unterminated": return op, text.replace(": ", ": \"", 1).encode("utf-8")
+    return "noop", bytes(b)
+
+
+def partial_record_mutants(tree):
+    """exhaustive over every mapping of the tree: the record loses its first pair, gets its first key renamed,
+    becomes empty, loses its last pair, or gets its first two pairs swapped (partial records at every position)"""
+    out = []
+    for p, n in _paths(tree):
+        if n[0] != "map" or not n[1] or (p and p[-1][0] == "k"): continue
+        items = list(n[1])
+        out.append(("del_first", p, _replace(tree, p, ("map", items[1:]))))
+        out.append(("rename_first", p, _replace(tree, p, ("map", [(S("idx"), items[0][1])] + items[1:]))))
+        out.append(("empty", p, _replace(tree, p, ("map", []))))
+        out.append(("del_last", p, _replace(tree, p, ("map", items[:-1]))))
+        if len(items) > 1: out.append(("swap_first", p, _replace(tree, p, ("map", [items[1], items[0]] + items[2:]))))
+        if len(items) > 2: out.append(("only_first", p, _replace(tree, p, ("map", items[:1]))))
+    return out
+
+def zero_doc():
+    """the unit-test configuration with the values an all-zero partial record collides with (number 0, port 0x0000,
+    address 0, aspect value 0 first / later) so that the duplicate scans after a failed record reach their syslog calls"""
+    d = example_doc()
+    b1 = d["track"][0]
+    b1["pb"][0]["num"] = "0x00"; b1["sb"][0]["num"] = "0"
+    b1["pe"][0]["port"] = "0x0000"
+    b1["pe"].append({"id": "led9", "num": "0x09", "port": "0x0909", "aspects": [{"id": "on", "val": "1"}, {"id": "off", "val": "0"}], "init": None})
+    b1["sg"].append({"id": "seg9", "addr": "0x09", "len": "1cm"})
+    b1["rv"] = [{"id": "rev1", "cv": "1"}, {"id": "rev2", "cv": "2"}]
+    return d
